@@ -171,6 +171,27 @@ where
     Some(e)
 }
 
+/// a `GraphModel` needs no unfolding: state ids are the states, label ids the labels
+fn explicit_graph(g: &GraphModel) -> Option<Explicit> {
+    let fps = g.fps();
+    let mut by_fp = HashMap::new();
+    for (i, f) in fps.iter().enumerate() {
+        if by_fp.insert(*f, i).is_some() {
+            return None;
+        }
+    }
+    Some(Explicit {
+        texts: (0..g.n).map(|s| format!("{:#?}", s as u16)).collect(),
+        init: g.init.iter().map(|s| *s as usize).collect(),
+        edges: g.edges.iter().map(|es| es.iter().map(|(l, t)| (*l as usize, t.map(|t| t as usize))).collect()).collect(),
+        labels: (0..16).map(|l| format!("{:?}", srh::graph_small::Act(l))).collect(),
+        bnd: (0..g.n).map(|s| g.within_boundary(&(s as u16))).collect(),
+        props: g.properties().iter().map(|p| (p.expectation.clone(), p.name, (0..g.n).map(|s| (p.condition)(g, &(s as u16))).collect())).collect(),
+        fps,
+        by_fp,
+    })
+}
+
 impl Explicit {
     fn lst(v: &[bool]) -> String {
         format!("(l {})", v.iter().enumerate().filter(|(_, b)| **b).map(|(i, _)| i.to_string()).collect::<Vec<_>>().join(" "))
@@ -928,7 +949,7 @@ fn on_demand_case(g0: &GraphModel, r: &mut Rng, out: &mut Out, threads: usize) {
         g.props.pop();
     }
     g.props.push((Expectation::Always, g.all_mask()));
-    let e = match explicit(&g, 64) {
+    let e = match explicit_graph(&g) {
         Some(e) => e,
         None => return,
     };
@@ -1088,7 +1109,7 @@ fn main() {
         let n_models = if thorough { 1500 } else { 150 };
         for _ in 0..n_models {
             let g = GraphModel::random(&mut rng, &cfg);
-            if let Some(e) = explicit(&g, 64) {
+            if let Some(e) = explicit_graph(&g) {
                 path_api_cases(&g, &e, &mut rng, &mut out, 8);
             }
         }
@@ -1152,7 +1173,7 @@ fn main() {
                     None => break,
                 };
                 let em = match job {
-                    Job::G(g) => match explicit(&g, 64) {
+                    Job::G(g) => match explicit_graph(&g) {
                         Some(e) => {
                             let bfs = bfs_reference(g.clone());
                             explorer_session("g", &g.sx(), &e, &bfs, &mut r, thorough, idx % 16 == 0)
